@@ -279,6 +279,12 @@ class Ctx:
 
     def fail(self, key, input_, what: str, **more):
         """A violation of the property observed on the implementation."""
+        if "case" not in more and isinstance(input_, dict) and input_.get("stream") in ("enum", "special", "fixed") \
+                and "doc" in input_:
+            # inputs of a deterministic enumeration are identified by document + history + step
+            blob = json.dumps([input_.get("doc"), input_.get("ops"), input_.get("at"), key.get("clause") if isinstance(key, dict) else None],
+                              sort_keys=True, default=str)
+            more["case"] = hashlib.sha1(blob.encode("utf-8")).hexdigest()[:14]
         self.failures.append({"key": key, "input": input_, "what": what, **more})
 
     def tie_break(self, kind: str, what: str, **more):
